@@ -1072,6 +1072,8 @@ bool Process::Arguments::read(int& character, String& argument)
           for(const Option* opt = options; opt < optionsEnd; ++opt)
             if(opt->name && String::compare(opt->name, arg, argLen) == 0 && !opt->name[argLen])
             {
+              if(end && !(opt->flags & Process::argumentFlag))
+                break; // a value was given to an option that does not take one: report it like an unknown option
               const char* argName = arg;
               character = opt->character;
               arg += end ? argLen + 1 : argLen;
